@@ -1572,8 +1572,9 @@ theorem clearHighBitsLarge_spec (W : Nat) (hW : 1 ≤ W) (ws : List Nat) (n : Na
         -- n % W ≠ 0: ceil = n / W + 1
         have hc : (n - 1) / W + 1 = n / W + 1 := by
           congr 1
-          have : n - 1 = W * (n / W) + (n % W - 1) := by omega
-          rw [this, Nat.mul_add_div (by omega), Nat.div_eq_of_lt (by omega)]; simp
+          apply Nat.div_eq_of_lt_le
+          · rw [Nat.mul_comm]; omega
+          · rw [Nat.succ_mul, Nat.mul_comm]; omega
         rw [hc] at h ⊢
         have hk : n / W < ws.length := by omega
         rw [take_succ_getD ws _ hk, List.dropLast_concat, List.getLastD_concat, onesN_and]
@@ -1589,11 +1590,12 @@ theorem clearHighBitsLarge_spec (W : Nat) (hW : 1 ≤ W) (ws : List Nat) (n : Na
             rcases Nat.eq_zero_or_pos (n / W) with hz | hz
             · rw [hz] at hdm; omega
             · exact hz
-          have : n - 1 = W * (n / W - 1) + (W - 1) := by
-            have : W * (n / W) = W * (n / W - 1) + W := by
-              rw [← Nat.mul_succ]; congr 1; omega
-            omega
-          rw [this, Nat.mul_add_div (by omega), Nat.div_eq_of_lt (by omega)]; omega
+          have hWle : W ≤ W * (n / W) := Nat.le_mul_of_pos_right W hq
+          have : (n - 1) / W = n / W - 1 := by
+            apply Nat.div_eq_of_lt_le
+            · rw [Nat.mul_comm, Nat.mul_sub, Nat.mul_one]; omega
+            · rw [Nat.succ_mul, Nat.mul_comm, Nat.mul_sub, Nat.mul_one]; omega
+          omega
         rw [hc] at h ⊢
         refine ⟨?_, fromBuffer_canon W _ (hw.take _)⟩
         rw [fromBuffer_value]
@@ -1615,7 +1617,9 @@ theorem TRepr.clearHighBits_spec (W : Nat) (hW : 1 ≤ W) (m : TRepr) (n : Nat) 
     · exact ⟨onesN_and d n, by rw [onesN_and]; exact Nat.lt_of_le_of_lt (Nat.mod_le _ _) hd⟩
     · rename_i h
       have : 2 ^ (2 * W) ≤ 2 ^ n := Nat.pow_le_pow_right (by omega) (by omega)
-      exact ⟨(Nat.mod_eq_of_lt (by omega)).symm, hd⟩
+      refine ⟨?_, hd⟩
+      show d = d % 2 ^ n
+      rw [Nat.mod_eq_of_lt (by omega)]
   | large ws => exact clearHighBitsLarge_spec W hW ws n hm.large_words
 
 /-- `split_bits(n)` = (`x mod 2^n`, `x div 2^n`), both canonical -/
@@ -1631,8 +1635,11 @@ theorem TRepr.splitBits_spec (W : Nat) (hW : 1 ≤ W) (m : TRepr) (n : Nat) (hm 
         rfl, Nat.lt_of_le_of_lt (Nat.div_le_self _ _) hd⟩
     · rename_i h
       have : 2 ^ (2 * W) ≤ 2 ^ n := Nat.pow_le_pow_right (by omega) (by omega)
-      exact ⟨⟨(Nat.mod_eq_of_lt (by omega)).symm, hd⟩,
-        (Nat.div_eq_of_lt (by omega)).symm, Nat.two_pow_pos _⟩
+      refine ⟨⟨?_, hd⟩, ?_, Nat.two_pow_pos _⟩
+      · show d = d % 2 ^ n
+        rw [Nat.mod_eq_of_lt (by omega)]
+      · show 0 = d / 2 ^ n
+        rw [Nat.div_eq_of_lt (by omega)]
   | large ws =>
     simp only [TRepr.splitBits]
     split
@@ -1651,14 +1658,9 @@ theorem bitLenNat_eq {v k : Nat} (h1 : 2 ^ k ≤ v) (h2 : v < 2 ^ (k + 1)) : bit
 
 theorem val_dropLast_getLast (W : Nat) (ws : List Nat) (hne : ws ≠ []) :
     val W ws = val W ws.dropLast + 2 ^ (W * (ws.length - 1)) * ws.getLastD 0 := by
-  have h := List.dropLast_append_getLast? (l := ws)
-  obtain ⟨x, hx⟩ : ∃ x, ws.getLast? = some x := by
-    rw [List.getLast?_eq_some_getLast hne]; exact ⟨_, rfl⟩
-  have hcat : ws = ws.dropLast ++ [x] := by
-    have := List.dropLast_append_getLast hne
-    rw [List.getLast?_eq_some_getLast hne] at hx
-    cases hx; exact this.symm
-  have hlast : ws.getLastD 0 = x := by rw [List.getLastD_eq_getLast?, hx]; rfl
+  have hcat := (List.dropLast_concat_getLast hne).symm
+  have hlast : ws.getLastD 0 = ws.getLast hne := by
+    rw [List.getLastD_eq_getLast?, List.getLast?_eq_some_getLast hne]; rfl
   rw [hlast]
   conv => lhs; rw [hcat]
   rw [val_append]; simp [List.length_dropLast]
@@ -1673,7 +1675,7 @@ theorem TRepr.bitLen_spec (W : Nat) (m : TRepr) (hm : m.Canon W) :
     have hne : ws ≠ [] := by intro e; subst e; simp at h3
     have hsplit := val_dropLast_getLast W ws hne
     have hlow : val W ws.dropLast < 2 ^ (W * (ws.length - 1)) := by
-      have := val_lt W _ (show IsWords W ws.dropLast from fun x hx => hw x (List.mem_of_mem_dropLast hx))
+      have := val_lt W _ (show IsWords W ws.dropLast from fun x hx => hw x (List.dropLast_subset ws hx))
       simpa [List.length_dropLast] using this
     have htop : ws.getLastD 0 ≠ 0 := by
       rw [List.getLastD_eq_getLast?]
